@@ -57,7 +57,9 @@ def main():
         r = G.build_real(c)
         if isinstance(r, tuple):
             res = r[1]
-            out[idx] = {'files': [[f.filename, hashlib.sha256(f.contents.encode('utf-8')).hexdigest(), f.hash]
+            from harness.common import code_of
+            out[idx] = {'files': [[f.filename, hashlib.sha256(f.contents.encode('utf-8')).hexdigest(), f.hash,
+                                   hashlib.sha256('\n'.join(code_of(f.contents)).encode('utf-8')).hexdigest()]
                                   for f in res.files], 'orders': orders}
         else:
             out[idx] = {'err': r['err'], 'orders': orders}
